@@ -276,3 +276,40 @@ def handleFault (focus : String) (c : Case) : String := Id.run do
   return acc.render s!"{tag0}/{mode}/{if withStats then "stats" else "fit"}"
 
 end Varpro.Drv
+
+namespace Varpro.Drv
+open Varpro
+
+/-- C08: outcome classes on extreme inputs.  Presence / absence of residuals, coefficients and
+Jacobian after build and after an update are replayed on the model (whose SVD oracle is only ever
+called on finite matrices – `c08_svd_guard`); panics and hangs are violations. -/
+def handleRobust (focus : String) (c : Case) : String := Id.run do
+  let _ := focus
+  let (acc0, tag0) := stateCore "C08" c
+  let mut acc := { acc0 with nontrivial := true }
+  let what := attrStr c.header "what"
+  let mut fitTag := "nofit"
+  for l in c.body do
+    if l.getD 0 "" == "outcome" then
+      acc := { acc with compared := acc.compared + 1 }
+      let stage := l.getD 1 ""
+      let res := l.getD 2 ""
+      if res == "panic" || res == "hang" then
+        acc := { acc with mon := acc.mon.push s!"{stage}-{res}:{(l.getD 3 "").take 100}" }
+      if stage == "fit" && (res == "ok" || res == "err") then
+        fitTag := s!"fit-{res}"
+        if attrStr l "band" == "panic" then
+          acc := { acc with mon := acc.mon.push "confidence_band_radius(0.9)-panics" }
+        if let some fl := c.firstWith "final" then
+          -- non-finite values never come back as a successful fit
+          if res == "ok" && attrStr fl "res" != "finite" then
+            acc := { acc with mon := acc.mon.push s!"fit-Ok-with-residuals-{attrStr fl "res"}" }
+        -- no residuals before the fit ⇒ the fit fails
+        let steps := parseSteps c
+        if steps.size > 0 then
+          let last := steps[steps.size - 1]!
+          if let some none := (last.get "impl").res then
+            if res == "ok" then acc := { acc with mon := acc.mon.push "fit-Ok-without-initial-residuals" }
+  return acc.render s!"{tag0}/{what}/{fitTag}"
+
+end Varpro.Drv
